@@ -210,11 +210,16 @@ def validate_schedule(G, raw, nodes, sup_name: str, prune: bool):
             req |= nx.ancestors(D, (sup_name, p)) | {(sup_name, p)}
         if not prune:
             vs = raw.vertices[sup_name]
+            desc = {p: nx.descendants(D, (sup_name, p)) for p in sup_steps}
             for n in nodes:
+                if n == sup_name:
+                    continue  # supervisor steps are required (or not) through the horizon, not through this clause
                 vv = raw.vertices[n]
                 for k in [int(s) for s in vv.seq[e] if s >= 0]:
                     for p in sup_steps:
-                        if float(vv.ts_end[e][k]) <= float(vs.ts_start[e][p]):
+                        # "finishes before supervisor step p starts": a zero-duration vertex that ends at the very instant step p starts but
+                        # *depends on* step p cannot precede it (it is a descendant, not a predecessor)
+                        if float(vv.ts_end[e][k]) <= float(vs.ts_start[e][p]) and (n, k) not in desc[p]:
                             req |= nx.ancestors(D, (n, k)) | {(n, k)}
                             break
         miss = req - set(pos)
